@@ -55,6 +55,10 @@ pub struct Probes {
     pub wrong_n_rejected: u64,
     pub wrong_version_rejected: u64,
     pub precreate_flips: u64,
+    #[serde(default)]
+    pub tx_open_across_call: u64,
+    #[serde(default)]
+    pub tx_carries_current_value: u64,
     pub ops: u64,
 }
 
@@ -92,6 +96,8 @@ pub struct World<K: SimKey> {
     pub writes_since_open: u64,
     /// a reopen has flipped `pre_create_cas_dirs` away from the creation-time choice (C19)
     pub pre_create_flipped: bool,
+    /// transactions currently held open by the harness (each owns one staging file)
+    pub open_txs: usize,
     pub op_index: usize,
     pub set_monitor_expectations: bool,
     /// the stored pre-create choice (set at creation)
@@ -198,6 +204,7 @@ impl<K: SimKey> World<K> {
             versions: 0,
             writes_since_open: 0,
             pre_create_flipped: false,
+            open_txs: 0,
             op_index: 0,
             set_monitor_expectations: true,
             created_pre_create: wl.cfg.pre_create,
@@ -212,23 +219,33 @@ impl<K: SimKey> World<K> {
 
     pub fn model_after(&self, op: &Op) -> BTreeMap<K, usize> {
         let mut m = self.model.clone();
+        Self::apply_to_model(&self.keys, &mut m, op);
+        m
+    }
+
+    fn apply_to_model(keys: &[K], m: &mut BTreeMap<K, usize>, op: &Op) {
         match op {
             Op::Put { k, c, abort: false, .. } => {
-                m.insert(self.keys[*k].clone(), *c);
+                m.insert(keys[*k].clone(), *c);
+            }
+            Op::PutAround { k, c, abort, inner, .. } => {
+                // as if `inner` ran first and the put second
+                Self::apply_to_model(keys, m, inner);
+                if !*abort {
+                    m.insert(keys[*k].clone(), *c);
+                }
             }
             Op::Remove { k } => {
-                m.remove(&self.keys[*k]);
+                m.remove(&keys[*k]);
             }
             Op::RemoveRange { lo, hi } => {
-                let ks: Vec<K> =
-                    m.range((bound(&self.keys, *lo), bound(&self.keys, *hi))).map(|(k, _)| k.clone()).collect();
+                let ks: Vec<K> = m.range((bound(keys, *lo), bound(keys, *hi))).map(|(k, _)| k.clone()).collect();
                 for k in ks {
                     m.remove(&k);
                 }
             }
             _ => {}
         }
-        m
     }
 
     /// open (or create) the database; all cassadilia code runs as simulated code
@@ -389,8 +406,8 @@ impl<K: SimKey> World<K> {
             let props: &[&str] = if missing.is_empty() { &["C07"] } else { &["C07", "C04"] };
             return Err(fail(props, if missing.is_empty() { "leaked-blob" } else { "missing-blob" }, i, format!("cas/ differs from the model at quiescence: extra={extra:?} missing={missing:?}")));
         }
-        if !staging.is_empty() {
-            return Err(fail(&["C07", "C13"], "staging-not-empty", i, format!("staging/ is not empty at quiescence: {staging:?}")));
+        if staging.len() != self.open_txs {
+            return Err(fail(&["C07", "C13"], "staging-not-empty", i, format!("staging/ holds {} file(s) while {} transaction(s) are open: {staging:?}", staging.len(), self.open_txs)));
         }
         Ok(())
     }
@@ -499,9 +516,17 @@ impl<K: SimKey> World<K> {
         if self.set_monitor_expectations {
             let a = self.logged_of(&self.model);
             let b = self.logged_of(&next);
+            let mut allowed = if a == b { vec![a] } else { vec![a, b] };
+            if let Op::PutAround { inner, .. } = op {
+                // two logged operations inside one harness step: the state in between is legal too
+                let mid = self.logged_of(&self.model_after(inner));
+                if !allowed.contains(&mid) {
+                    allowed.insert(1, mid);
+                }
+            }
             with_sim(|s| {
                 s.begin_op(i as u32);
-                s.mon.allowed = if a == b { vec![a] } else { vec![a, b] };
+                s.mon.allowed = allowed;
             });
         } else {
             with_sim(|s| s.begin_op(i as u32));
@@ -617,6 +642,102 @@ impl<K: SimKey> World<K> {
                         Some(true) => {}
                         Some(false) => self.soft(Err(fail(&["C18", "C06"], "blob-bytes", i, format!("file at {path} does not hold the committed content"))))?,
                         None => self.soft(Err(fail(&["C18", "C04"], "blob-path", i, format!("no file at the checker-computed path {path} after finish()"))))?,
+                    }
+                }
+                self.check_files(i)
+            }
+            Op::PutAround { k, c, chunks, abort, inner } => {
+                self.probes.tx_open_across_call += 1;
+                let key = self.keys[*k].clone();
+                let data = self.contents[*c].clone();
+                if self.model.get(&key).is_some_and(|&cur| self.hashes[cur] == self.hashes[*c]) {
+                    self.probes.tx_carries_current_value += 1;
+                }
+                // the transaction lives on a clone of the handle so that the inner call can borrow the
+                // world; every drop below happens as simulated code
+                let cas2 = self.cas.as_ref().unwrap().clone();
+                let split = chunks.len() / 2;
+                let put_failed = |e: String, w: &World<K>| {
+                    let props: &[&str] = if w.pre_create_flipped { &["C01", "C18", "C19"] } else { &["C01", "C18"] };
+                    fail(props, "put-failed", i, format!("{} failed without any injected fault: {e}", op.short()))
+                };
+                let mut tx = match interpose::enter(|| cas2.put(key.clone())) {
+                    Ok(t) => t,
+                    Err(e) => {
+                        interpose::enter(|| drop(cas2));
+                        return Err(put_failed(format!("put(): {e}"), self));
+                    }
+                };
+                let mut off = 0;
+                let mut werr = None;
+                for &n in &chunks[..split] {
+                    if let Err(e) = interpose::enter(|| tx.write(&data[off..off + n])) {
+                        werr = Some(format!("write(): {e}"));
+                        break;
+                    }
+                    off += n;
+                }
+                if let Some(e) = werr {
+                    interpose::enter(|| drop(tx));
+                    interpose::enter(|| drop(cas2));
+                    return Err(put_failed(e, self));
+                }
+                // ---- the other call, with its own model transition and oracles -----------------
+                self.open_txs += 1;
+                let mid = self.model_after(inner);
+                let r = self.step_inner(i, inner, mid);
+                self.open_txs -= 1;
+                if let Err(f) = r {
+                    interpose::enter(|| drop(tx));
+                    interpose::enter(|| drop(cas2));
+                    return Err(f);
+                }
+                let prev = self.model.get(&key).copied();
+                // ---- the rest of the transaction ---------------------------------------------
+                let res: Result<(), String> = interpose::enter(|| {
+                    for &n in &chunks[split..] {
+                        tx.write(&data[off..off + n]).map_err(|e| format!("write(): {e}"))?;
+                        off += n;
+                    }
+                    assert_eq!(off, data.len(), "harness: chunks must cover the content");
+                    if *abort {
+                        drop(tx);
+                        Ok(())
+                    } else {
+                        tx.finish().map_err(|e| format!("finish(): {e} ({e:?})"))
+                    }
+                });
+                if let Err(e) = res {
+                    interpose::enter(|| drop(cas2));
+                    return Err(put_failed(e, self));
+                }
+                self.model = next;
+                let got = interpose::enter(|| cas2.get(&key));
+                let item = interpose::enter(|| cas2.read_index_state().get_item(&key));
+                interpose::enter(|| drop(cas2));
+                if *abort {
+                    let want = prev.map(|p| self.contents[p].clone());
+                    match got {
+                        Ok(g) if g.as_ref().map(|b| b.as_ref()) == want.as_ref().map(|w| w.as_slice()) => {}
+                        other => return Err(fail(&["C13", "C01"], "abort-changed-value", i, format!("after a transaction that was open across {} and then abandoned, get() = {:?}", inner.short(), other.map(|o| o.map(|b| b.len()))))),
+                    }
+                } else {
+                    self.versions += 1;
+                    self.writes_since_open += 1;
+                    match got {
+                        Ok(Some(b)) if b.as_ref() == data.as_slice() => {}
+                        other => {
+                            return Err(fail(
+                                &["C01", "C13"],
+                                "get-result",
+                                i,
+                                format!("after finish() of a transaction that was open across {}, get({key:?}) = {:?}, expected the {} bytes written through it", inner.short(), other.map(|o| o.map(|b| b.len())), data.len()),
+                            ))
+                        }
+                    }
+                    match item {
+                        Some(it) if it.blob_hash.0 == self.hashes[*c] && it.blob_size == data.len() as u64 => {}
+                        _ => return Err(fail(&["C18", "C01"], "hash-or-size", i, format!("after finish() of a transaction open across {}: index entry differs from blake3(content)/len", inner.short()))),
                     }
                 }
                 self.check_files(i)
